@@ -940,7 +940,7 @@ class _ArglistRule(SyntaxRule):
             if argument == ',':
                 continue
 
-            if argument.type == 'argument':
+            if argument.type == 'argument' and argument.children[1] != ':=':
                 first = argument.children[0]
                 if _is_argument_comprehension(argument) and len(node.children) >= 2:
                     # a(a, b for b in c)
